@@ -8,7 +8,7 @@ use crate::fgen::*;
 use crate::find::{account_find, run_find_prebuilt, FindScenario};
 use crate::prop::{Property, Report, Tier};
 use crate::props::c06::{kernel_budget, kernel_cost};
-use crate::props::c09::{norm_dir, split_for_execdir};
+use crate::props::c09::{norm_dir, split_for_execdir_bytes};
 use crate::rng::Rng;
 use crate::tree;
 use crate::world::{Event, Outcome};
@@ -35,6 +35,12 @@ pub struct Sc {
     pub sorted: bool,
     pub depth: bool,
     pub tests: Vec<String>,
+    /// -mindepth / -maxdepth (the per-directory flush of -execdir must not depend on which
+    /// entries the depth filter lets through)
+    #[serde(default)]
+    pub mindepth: Option<usize>,
+    #[serde(default)]
+    pub maxdepth: Option<usize>,
     pub execdir: bool,
     pub fixed: Vec<String>,
     pub place: Place,
@@ -53,6 +59,14 @@ impl Sc {
         }
         if self.depth {
             a.push("-depth".into());
+        }
+        if let Some(m) = self.mindepth {
+            a.push("-mindepth".into());
+            a.push(m.to_string());
+        }
+        if let Some(m) = self.maxdepth {
+            a.push("-maxdepth".into());
+            a.push(m.to_string());
         }
         a.extend(self.tests.iter().cloned());
         let mut action: Vec<String> = vec!["-print0".into()];
@@ -144,6 +158,7 @@ impl Property for C08 {
             allow_loops: false,
             outside: false,
             fifo: false,
+            raw_byte: if !tight && rng.chance(1, 4) { Some(*rng.pick(&[0xffu8, 0xe9, 0xc3, 0x80])) } else { None },
         };
         let spec = gen_tree(rng, &cfg);
         let mut starts: Vec<String> = roots
@@ -201,6 +216,8 @@ impl Property for C08 {
             sorted: rng.chance(2, 3),
             depth: rng.chance(1, 4),
             tests: gen_stable_tests(rng),
+            mindepth: if rng.chance(1, 4) { Some(rng.urange(0, 3)) } else { None },
+            maxdepth: if rng.chance(1, 6) { Some(rng.urange(0, 4)) } else { None },
             execdir: rng.chance(2, 5),
             fixed,
             place: *rng.pick(&[Place::Plain, Place::Plain, Place::Parens, Place::Negated, Place::OrLeft, Place::OrRight, Place::Comma]),
@@ -231,6 +248,12 @@ impl Property for C08 {
         account_find(&obs, rep);
         if sc.execdir {
             rep.probe("execdir");
+        }
+        if sc.execdir && sc.mindepth.is_some_and(|m| m >= 2) {
+            rep.probe("execdir_with_mindepth_ge_2");
+        }
+        if sc.find.tree.raw_byte.is_some() && sc.find.tree.nodes.iter().any(|n| n.path().contains(tree::RAW_SENTINEL)) {
+            rep.probe("file_name_not_valid_utf8");
         }
         if sc.find.env.is_some() {
             rep.probe("tight_argument_budget");
@@ -284,7 +307,7 @@ impl Property for C08 {
                                         );
                                         return;
                                     }
-                                    markers.push((pos, r));
+                                    markers.push((pos, tree::unlossy(sc.find.tree.raw_byte, &r)));
                                     last_was_path = true;
                                 }
                             } else {
@@ -347,7 +370,7 @@ impl Property for C08 {
                 // confirm with the real kernel before reporting
                 let mut c = std::process::Command::new("/bin/true");
                 for a in &argv[1..] {
-                    c.arg(std::ffi::OsStr::new(std::str::from_utf8(a).unwrap_or("x")));
+                    c.arg(<std::ffi::OsStr as std::os::unix::ffi::OsStrExt>::from_bytes(a));
                 }
                 match c.status() {
                     Err(e) if e.raw_os_error() == Some(libc::E2BIG) => {
@@ -366,8 +389,8 @@ impl Property for C08 {
             .iter()
             .map(|(_, p)| {
                 if sc.execdir {
-                    let (d, n) = split_for_execdir(&String::from_utf8_lossy(p));
-                    (n.into_bytes(), d)
+                    let (d, n) = split_for_execdir_bytes(p);
+                    (n, d)
                 } else {
                     (p.clone(), String::new())
                 }
@@ -479,6 +502,16 @@ impl Property for C08 {
         if sc.depth {
             let mut s = sc.clone();
             s.depth = false;
+            push(s);
+        }
+        if sc.mindepth.is_some() {
+            let mut s = sc.clone();
+            s.mindepth = None;
+            push(s);
+        }
+        if sc.maxdepth.is_some() {
+            let mut s = sc.clone();
+            s.maxdepth = None;
             push(s);
         }
         for i in 0..sc.fixed.len() {
